@@ -57,12 +57,18 @@ Present ==
   CASE Family \in {"chain", "chain-q", "exports", "exports-q", "reexp", "reexp-q", "topstar", "splice"} -> {"p", "p.a", "p.b"}
     [] Family \in {"pkg", "pkg-q"} -> {"p", "p.s", "p.s.c"}
     [] Family \in {"graph", "graph-q", "fine"} -> {"p", "p.a", "p.b", "q"}
-    [] Family \in {"wild", "wild-q", "retarget", "retarget-q"} -> {"p", "p.a", "p.b"}
+    [] Family \in {"wild", "wild-q", "retarget", "retarget-q", "selfcyc"} -> {"p", "p.a", "p.b"}
+    [] Family \in {"spl-down", "spl-up"} -> {"p", "p.a", "p.b", "p.s"}
+    [] Family = "side" -> {"p", "q", "r"}
     [] OTHER -> {"p"}
 ModOrder ==
   CASE Family \in {"chain", "chain-q", "exports", "exports-q", "wild", "wild-q", "retarget", "retarget-q", "reexp", "reexp-q", "splice"} -> <<"p.a", "p.b", "p">>
     [] Family \in {"pkg", "pkg-q"} -> <<"p.s.c", "p.s", "p">>
-    [] Family = "topstar" -> <<"p.a", "p", "p.b">>           \* a sub-module star-imports its (already imported) parent package
+    [] Family = "topstar" -> <<"p.a", "p", "p.b">>
+    [] Family = "spl-down" -> <<"p.s", "p.b", "p.a", "p">>    \* p.a splices p.b's __all__, which splices p.s's: dependents are expanded first
+    [] Family = "spl-up" -> <<"p.a", "p.b", "p.s", "p">>      \* p.s splices p.b's, which splices p.a's: dependencies are expanded first
+    [] Family = "side" -> <<"r", "q", "p">>
+    [] Family = "selfcyc" -> <<"p.a", "p.b", "p">>           \* a sub-module star-imports its (already imported) parent package
     [] Family \in {"graph", "graph-q", "fine"} -> <<"p.a", "p.b", "p", "q">>
     [] OTHER -> <<"p">>
 Quick == Family \in {"chain-q", "exports-q", "pkg-q", "graph-q", "reexp-q"}
@@ -94,6 +100,21 @@ Menu(m) ==
         ( CASE m = "p.a" -> {Def("x"), All(<<"x">>)}
             [] m = "p.b" -> {FromAs("p.a", "__all__", "a_all"), Star("p.a"), AllInc(<<>>, "a_all"), Def("y")}
             [] OTHER -> {Star("p.b"), All(<<"x">>), All(<<>>)} )
+    [] Family \in {"spl-down", "spl-up"} ->   \* __all__ spliced through a chain of depth 2 below a package that has an __all__
+        LET leaf == IF Family = "spl-down" THEN "p.s" ELSE "p.a"
+            api == IF Family = "spl-down" THEN "p.a" ELSE "p.s"
+        IN ( CASE m = leaf -> {Def("x"), All(<<"x">>)}
+               [] m = "p.b" -> {FromAs(leaf, "__all__", "a_all"), AllInc(<<>>, "a_all"), Def("y"), AllInc(<<"y">>, "a_all")}
+               [] m = api -> {FromAs("p.b", "__all__", "b_all"), AllInc(<<>>, "b_all")}
+               [] OTHER -> {All(<<>>)} )
+    [] Family = "side" ->          \* three top-level packages; only p is loaded, the others are side-loaded by resolve_aliases(external=True)
+        ( CASE m = "r" -> {Def("y"), Def("x")}
+            [] m = "q" -> {Def("x"), From("r", "y"), FromAs("r", "x", "y"), From("zz", "y")}
+            [] OTHER -> {From("q", "x"), From("zz", "y"), From("q", "y"), Star("q"), FromAs("r", "y", "x")} )
+    [] Family = "selfcyc" ->       \* a module imports itself under an alias and imports through it: chains that lead INTO a resolved cycle
+        ( CASE m = "p.a" -> {ImportAs("p.a", "y"), From("p.a.y", "x"), Def("x")}
+            [] m = "p.b" -> {From("p.a", "x"), ImportAs("p.a", "y"), From("p.b.y", "x")}
+            [] OTHER -> {From("p.b", "x"), From("p.a", "x")} )
     [] Family = "topstar" ->
         ( CASE m = "p.a" -> {Def("x"), Def("y"), All(<<"x">>)}
             [] m = "p" -> {FromAs("p.a", "__all__", "a_all"), Star("p.a"), AllInc(<<>>, "a_all"), All(<<"x">>), Def("y")}
@@ -139,6 +160,8 @@ MaxLen(m) ==
     [] Family \in {"reexp", "reexp-q"} -> 2
     [] Family = "topstar" -> (IF m = "p" THEN 3 ELSE IF m = "p.b" THEN 1 ELSE 2)
     [] Family = "splice" -> (IF m = "p.b" THEN 3 ELSE 2)
+    [] Family \in {"spl-down", "spl-up"} -> (IF m = "p" THEN 1 ELSE 2)
+    [] Family \in {"side", "selfcyc"} -> 2
     [] Family \in {"pkg", "pkg-q"} -> (IF m = "p.s.c" THEN 1 ELSE 2)
     [] Family \in {"graph", "graph-q", "fine", "wild", "wild-q", "retarget", "retarget-q"} -> (IF m = "q" THEN 1 ELSE 2)
     [] OTHER -> 2
@@ -146,6 +169,9 @@ MaxLen(m) ==
 \* bound on the number of statements of a program, per family and scale
 MaxTotal ==
   IF TotalCap > 0 THEN TotalCap
+  ELSE IF Family \in {"spl-down", "spl-up"} THEN 7
+  ELSE IF Family = "side" THEN (IF Scale = "quick" THEN 4 ELSE 5)
+  ELSE IF Family = "selfcyc" THEN (IF Scale = "quick" THEN 3 ELSE 4)
   ELSE IF Scale = "quick"
        THEN ( CASE Family = "chain-q" -> 3 [] Family = "exports-q" -> 4 [] Family = "pkg-q" -> 3 [] Family = "reexp-q" -> 6
                 [] Family = "graph-q" -> 2 [] Family = "wild-q" -> 3 [] Family = "retarget-q" -> 5 [] Family = "fine" -> 2
@@ -156,10 +182,11 @@ MaxTotal ==
                 [] OTHER -> 3 )
 \* C06 schedules: "std": load the relevant packages in any order, optionally resolve in between, then resolve twice;
 \*                "free": any sequence of load / resolve_aliases calls within MaxOps
-Sched == IF Family = "fine" THEN "free" ELSE "std"
+\*                "ext": only p is loaded, then resolve_aliases(external=True) twice: the other packages are side-loaded
+Sched == IF Family = "fine" THEN "free" ELSE IF Family = "side" THEN "ext" ELSE "std"
 MaxOps == IF Prop = "C05" THEN 2
           ELSE IF Family = "fine" THEN (IF Scale = "quick" THEN 3 ELSE 4)
-          ELSE IF Family \in {"graph", "graph-q"} THEN 5 ELSE 3
+          ELSE IF Family \in {"graph", "graph-q"} THEN 5 ELSE 3     \* ("ext": load(p), resolve, resolve)
 
 TotalLen(pr) == LET RECURSIVE sum(_) sum(k) == IF k = 0 THEN 0 ELSE Len(pr[ModOrder[k]]) + sum(k - 1) IN sum(Len(ModOrder))
 
@@ -185,6 +212,7 @@ ModuleOK(pr, m) ==
 \* =========================================================================================================
 \* Recorded defect patterns (static predicates on the program).  Domain "clean" = none of them.
 \* =========================================================================================================
+IsAncestor(anc, m) == anc # m /\ anc \in Mods /\ Len(PP(anc)) < Len(PP(m)) /\ SubSeq(PP(m), 1, Len(PP(anc))) = PP(anc)
 AllStmts(pr) == UNION {{[m |-> m, k |-> k, s |-> pr[m][k]] : k \in 1..Len(pr[m])} : m \in Present}
 HasAll(pr, m) == \E s \in StmtsOf(pr, m) : s.op = "all"
 ImportsOf(pr, m) == {s \in StmtsOf(pr, m) : s.op \in {"from", "import"}}
@@ -196,9 +224,10 @@ RecordedImport(pkg, c) == \E s \in StmtsOf(prog, pkg) :
       s.op = "from" /\ s.m = pkg /\ s.n = Leaf(c) /\ s.as \in {"", Leaf(c)} /\ ~(s.rel /\ s.as = "")
 D1 == \E e \in AllStmts(prog) : e.s.op = "star" /\ e.s.m \in Present /\ IsPkg(e.s.m)
         /\ \E c \in Present : ParentOf(c) = e.s.m /\ OwnImports(e.s.m, c) /\ ~RecordedImport(e.s.m, c)
-\* C05-D2  expand_exports returns before recursing into sub-modules when the module has no __all__:
-\*         `__all__ = [..., *other_all]` of a sub-module stays unexpanded when an ancestor has no __all__
+\* C05-D2  expand_exports returns at `if module.exports is None: return` BEFORE the loop that recurses into sub-modules:
+\*         `__all__ = [..., *other_all]` of a module stays unexpanded when one of its ancestor packages has no __all__
 D2 == \E e \in AllStmts(prog) : e.s.op \in {"all", "aug"} /\ e.s.inc # ""
+        /\ \E anc \in Present : IsAncestor(anc, e.m) /\ ~HasAll(prog, anc)
 \* C05-D3  `from m import __all__` (not assigned): Module.exports is only set by assignments
 D3 == \E e \in AllStmts(prog) : e.s.op = "from" /\ e.s.n = "__all__" /\ e.s.as = ""
 \* C05-D4  aliases are resolved (Alias.kind in Module.modules, Alias constructors) before wildcards are
@@ -209,7 +238,6 @@ D4 == \E m \in Present : \E k1, k2 \in 1..Len(prog[m]) :
 \*         scanned (the package is in `seen`, so it is not expanded first) and copies the package's members as they are at
 \*         that moment - the package's own star imports are still pseudo members ("pkg/mod/*", which are exposed and
 \*         copied as junk) and the names they will bring are missing
-IsAncestor(anc, m) == anc # m /\ anc \in Mods /\ Len(PP(anc)) < Len(PP(m)) /\ SubSeq(PP(m), 1, Len(PP(anc))) = PP(anc)
 D5 == \E e \in AllStmts(prog) : e.s.op = "star" /\ IsAncestor(e.s.m, e.m)
 \* C06-E1  expand_wildcards builds Alias(name, target=<member>) - born "resolved" - on top of a member that is
 \*         itself an alias (which may be unresolved / unresolvable)
@@ -421,20 +449,28 @@ StepEW(S0, t) ==
               \*   if not_loaded: if external is False ...: continue
               LET pkg == S0.al[e.o].tp[1]
                   notloaded == TopOf(a.m) # pkg /\ ~\E k \in 1..Len(S0.coll) : S0.coll[k] = pkg
-              IN IF notloaded THEN SetTop(S0, [t EXCEPT !.i = @ + 1])
+              IN IF notloaded
+                 THEN \*   if external is False ...: continue
+                      \*   try: self.load(package, try_relative_path=False)  except (ImportError, LoadingError): continue
+                      IF ~t.ext \/ pkg \notin (TopPkgs \cap Present) THEN SetTop(S0, [t EXCEPT !.i = @ + 1])
+                      ELSE CallF(S0, [t EXCEPT !.st = "w-load", !.set = S0.seen], Fr("LD", ModId(pkg)))
                  \*   try: target = self.modules_collection.get_member(member.target_path)  except KeyError: continue
                  ELSE CallF(S0, [t EXCEPT !.st = "w-lk"], FrLK(S0.al[e.o].tp))
            \*   elif not member.is_alias and member.is_module and member.path not in seen: self.expand_wildcards(member, ...)
            ELSE IF ~IsAl(S0, e.o) /\ IsModId(e.o) /\ PP(e.o.m) \notin S0.seen
-                THEN CallF(S0, [t EXCEPT !.st = "sub"], Fr("EW", e.o))
+                THEN CallF(S0, [t EXCEPT !.st = "sub"], [Fr("EW", e.o) EXCEPT !.ext = t.ext])
            ELSE SetTop(S0, [t EXCEPT !.i = @ + 1])
+    [] t.st = "w-load" ->
+         \* the nested load() ran its own expand_exports / expand_wildcards with fresh `seen` sets: ours is restored
+         IF S0.exc # "" THEN Throw(S0, S0.exc)
+         ELSE CallF([S0 EXCEPT !.seen = t.set], [t EXCEPT !.st = "w-lk"], FrLK(S0.al[S0.mem[a.m][t.i].o].tp))
     [] t.st = "w-lk" ->
          IF S0.exc = "KEY" THEN SetTop(S0, [t EXCEPT !.st = "scan", !.i = @ + 1])
          ELSE IF S0.exc # "" THEN Throw(S0, S0.exc)             \* only KeyError is caught here
          ELSE LET tg == S0.ret IN
               \*   if target.path not in seen: try: self.expand_wildcards(target, ...)
               \*                               except (AliasResolutionError, CyclicAliasError): continue
-              IF PathOf(S0, tg) \notin S0.seen THEN CallF(S0, [t EXCEPT !.st = "w-rec", !.cur = tg], Fr("EW", tg))
+              IF PathOf(S0, tg) \notin S0.seen THEN CallF(S0, [t EXCEPT !.st = "w-rec", !.cur = tg], [Fr("EW", tg) EXCEPT !.ext = t.ext])
               ELSE SetTop(S0, [t EXCEPT !.st = "collect", !.cur = tg])
     [] t.st = "w-rec" ->
          IF S0.exc \in {"ARE", "CYC"} THEN SetTop(S0, [t EXCEPT !.st = "scan", !.i = @ + 1])
@@ -505,31 +541,49 @@ StepRM(S0, t) ==
     [] t.st = "rt" ->
          \*   except AliasResolutionError: unresolved.add(member.path)     except CyclicAliasError: logger.debug
          \*   else: logger.debug("... resolved to %s", member.path, member.final_target.path) ; resolved.add(member.path)
-         IF S0.exc = "ARE" THEN SetTop([S0 EXCEPT !.unres = @ \cup {PathOf(S0, mm[t.i].o)}], [t EXCEPT !.st = "loop", !.i = @ + 1])
+         \*   target = error.alias.target_path ; package = target.split(".", 1)[0]
+         \*   load_module = (external is True ...) and package not in load_failures and obj.package.path != package
+         \*                 and package not in self.modules_collection
+         \*   if load_module: try: self.load(package, try_relative_path=False)
+         \*                   except (ImportError, LoadingError): load_failures.add(package)
+         IF S0.exc = "ARE" THEN
+            LET S1 == [S0 EXCEPT !.unres = @ \cup {PathOf(S0, mm[t.i].o)}]
+                pkg == S0.al[S0.erra].tp[1]
+                loadit == S0.ext /\ pkg \notin S0.lfail /\ TopOf(m) # pkg /\ ~\E k \in 1..Len(S0.coll) : S0.coll[k] = pkg
+            IN IF ~loadit THEN SetTop(S1, [t EXCEPT !.st = "loop", !.i = @ + 1])
+               ELSE IF pkg \notin (TopPkgs \cap Present)
+                    THEN SetTop([S1 EXCEPT !.lfail = @ \cup {pkg}], [t EXCEPT !.st = "loop", !.i = @ + 1])
+               ELSE CallF(S1, [t EXCEPT !.st = "side", !.set = S0.seen], Fr("LD", ModId(pkg)))
          ELSE IF S0.exc = "CYC" THEN SetTop(S0, [t EXCEPT !.st = "loop", !.i = @ + 1])
          ELSE IF S0.exc # "" THEN Throw(S0, S0.exc)
          ELSE CallF(S0, [t EXCEPT !.st = "logft"], Fr("FT", mm[t.i].o))
     [] t.st = "logft" -> IF S0.exc # "" THEN Throw(S0, S0.exc) ELSE SetTop(S0, [t EXCEPT !.st = "loop", !.i = @ + 1])
     [] t.st = "sub" -> IF S0.exc # "" THEN Throw(S0, S0.exc) ELSE SetTop(S0, [t EXCEPT !.st = "loop", !.i = @ + 1])
+    [] t.st = "side" ->
+         \* the side-loaded package is in the collection now (it is scanned from the next iteration on); `seen` is ours again
+         IF S0.exc # "" THEN Throw(S0, S0.exc) ELSE SetTop([S0 EXCEPT !.seen = t.set], [t EXCEPT !.st = "loop", !.i = @ + 1])
     [] OTHER -> Throw(S0, "OTHER")
 
 Marker == {<<"0">>}          \* unresolved = set("0")  # Init to enter loop.
 StepRA(S0, t) ==
-  CASE t.st = "enter" -> SetTop([S0 EXCEPT !.unres = Marker, !.iter = 0], [t EXCEPT !.st = "wild", !.i = 1, !.set = {}])
+  CASE t.st = "enter" ->
+         \*   for wildcards_module in list(collection.values()): ...          (t.j: length of the snapshot)
+         SetTop([S0 EXCEPT !.unres = Marker, !.iter = 0, !.lfail = {}], [t EXCEPT !.st = "wild", !.i = 1, !.j = Len(S0.coll), !.set = {}])
     [] t.st = "wild" ->
-         \*   for wildcards_module in list(collection.values()): self.expand_wildcards(wildcards_module, external=external)
+         \*   self.expand_wildcards(wildcards_module, external=external)
          IF S0.exc # "" THEN Throw(S0, S0.exc)
-         ELSE IF t.i > Len(S0.coll) THEN SetTop(S0, [t EXCEPT !.st = "while"])
-         ELSE CallF([S0 EXCEPT !.seen = {}], [t EXCEPT !.i = @ + 1], Fr("EW", ModId(S0.coll[t.i])))
+         ELSE IF t.i > t.j THEN SetTop(S0, [t EXCEPT !.st = "while"])
+         ELSE CallF([S0 EXCEPT !.seen = {}], [t EXCEPT !.i = @ + 1], [Fr("EW", ModId(S0.coll[t.i])) EXCEPT !.ext = S0.ext])
     [] t.st = "while" ->
          \*   while unresolved and unresolved != prev_unresolved and iteration < max_iterations:
          \*       prev_unresolved = unresolved - {"0"} ; unresolved = set() ; iteration += 1
+         \*       for module_name in list(collection.keys()): ...              (t.j: length of the snapshot)
          IF S0.unres # {} /\ S0.unres # t.set
-         THEN SetTop([S0 EXCEPT !.unres = {}, !.iter = @ + 1], [t EXCEPT !.st = "mods", !.i = 1, !.set = S0.unres \ Marker])
+         THEN SetTop([S0 EXCEPT !.unres = {}, !.iter = @ + 1], [t EXCEPT !.st = "mods", !.i = 1, !.j = Len(S0.coll), !.set = S0.unres \ Marker])
          ELSE Return(S0, Nil)
     [] t.st = "mods" ->
          IF S0.exc # "" THEN Throw(S0, S0.exc)
-         ELSE IF t.i > Len(S0.coll) THEN SetTop(S0, [t EXCEPT !.st = "while"])
+         ELSE IF t.i > t.j THEN SetTop(S0, [t EXCEPT !.st = "while"])
          ELSE CallF([S0 EXCEPT !.seen = {}], [t EXCEPT !.i = @ + 1], Fr("RM", ModId(S0.coll[t.i])))
     [] OTHER -> Throw(S0, "OTHER")
 
@@ -569,7 +623,7 @@ InitS ==
   [stack |-> <<>>, exc |-> "", ret |-> Nil, coll |-> <<>>,
    mem |-> [m \in Present |-> <<>>], al |-> [x \in {} |-> NewAlias(<<>>, Nil)], brefs |-> [x \in {} |-> <<>>],
    exports |-> [m \in Present |-> NoExports], imports |-> [m \in Present |-> {}],
-   seen |-> {}, nt |-> 0, unmod |-> FALSE, hist |-> <<>>, log |-> TRUE, unres |-> {}, iter |-> 0, pout |-> <<>>]
+   seen |-> {}, nt |-> 0, unmod |-> FALSE, hist |-> <<>>, log |-> TRUE, erra |-> Nil, ext |-> FALSE, lfail |-> {}, unres |-> {}, iter |-> 0, pout |-> <<>>]
 
 Init ==
   /\ Family \in Families
@@ -643,7 +697,7 @@ NumOps(name) == Cardinality({k \in 1..Len(ops) : ops[k].op = name})
 LastOp == IF ops = <<>> THEN "" ELSE ops[Len(ops)].op
 
 QRelevant == prog["q"] # <<>> \/ \E e \in AllStmts(prog) : e.s.m = "q"
-Wanted == IF Prop = "C05" THEN {"p"} ELSE (TopPkgs \cap Present) \ (IF QRelevant THEN {} ELSE {"q"})
+Wanted == IF Prop = "C05" \/ Sched = "ext" THEN {"p"} ELSE (TopPkgs \cap Present) \ (IF QRelevant THEN {} ELSE {"q"})
 AllWantedLoaded == \A pkg \in Wanted : Loaded(S, pkg)
 LastTwoResolve == Len(ops) >= 2 /\ ops[Len(ops)].op = "resolve" /\ ops[Len(ops) - 1].op = "resolve"
 
@@ -657,9 +711,9 @@ StartOp ==       \* a public call begins (the previous one, if any, has returned
           /\ lastres' = <<>>
        \/ /\ S.coll # <<>> /\ ~LastTwoResolve
           /\ (Prop = "C05" => NumOps("resolve") = 0)
-          /\ (Sched = "std" /\ LastOp = "resolve" => AllWantedLoaded)
-          /\ S' = [S EXCEPT !.stack = <<Fr("RA", Nil)>>, !.hist = IF TraceOn THEN Append(@, <<"RA", <<>>>>) ELSE @]
-          /\ ops' = Append(ops, [op |-> "resolve", arg |-> "", out |-> "", unres |-> {}, iter |-> 0])
+          /\ (Sched \in {"std", "ext"} /\ LastOp = "resolve" => AllWantedLoaded)
+          /\ S' = [S EXCEPT !.stack = <<Fr("RA", Nil)>>, !.ext = (Sched = "ext"), !.hist = IF TraceOn THEN Append(@, <<"RA", <<>>>>) ELSE @]
+          /\ ops' = Append(ops, [op |-> "resolve", arg |-> IF Sched = "ext" THEN "ext" ELSE "", out |-> "", unres |-> {}, iter |-> 0])
           /\ UNCHANGED lastres
   /\ UNCHANGED <<prog, R, phase, bm, crashed, fixbad, probes, flagsv, proj0>>
 
@@ -688,7 +742,7 @@ Finish ==        \* the schedule ends; every member alias is probed
   /\ UNCHANGED Family
   /\ phase = "ld" /\ S.stack = <<>> /\ S.coll # <<>>
   /\ (Prop = "C05" /\ crashed = "" => NumOps("resolve") = 1)
-  /\ (Prop = "C06" /\ Sched = "std" /\ crashed = "" => AllWantedLoaded /\ LastTwoResolve)
+  /\ (Prop = "C06" /\ Sched \in {"std", "ext"} /\ crashed = "" => AllWantedLoaded /\ LastTwoResolve)
   /\ phase' = IF crashed # "" THEN "done" ELSE "probe"
   /\ proj0' = IF Gen THEN ProjS(S) ELSE <<>>
   /\ S' = [S EXCEPT !.log = FALSE]
